@@ -234,7 +234,9 @@ def run(scn):
         out = []
 
         def V(clause, msg, **d):
-            nset = len([c for c in tr['cmds'] if c.startswith('PS1=') or c.startswith('set prompt=')])
+            # how many prompt-setting attempts the client has typed so far (whoever ended up reading them)
+            typed = bytes(r.pty.in_log) + bytes(r.pty.discard_log)
+            nset = typed.count(b"PS1='[PEXPECT]") + typed.count(b"set prompt='[PEXPECT]")
             d.update(script=[s['k'] for s in scn.get('script', [])], opts=scn.get('opts'), flavour=flavour,
                      prompt_setting_commands_received=nset, server_state=tr['state'])
             out.append(Violation(clause, msg, d.pop('site', None), d))
